@@ -219,16 +219,20 @@ func (hc *histChecker) checkScript(op *Op, connID string) {
 			limit = own[wi]
 		}
 		if isWrite(st) && wi < len(own) && sameArgs(lm.entries[own[wi]].args, st) {
+			// this call may be the script's next log entry - unless its reply says otherwise
+			// (the same call can occur twice in a script, one of them without effect)
 			q := own[wi]
+			asEntry := true
 			if !op.Reply.isErr() && i < len(op.Reply.A) {
 				if err := lm.entries[q].res.exp(op.Reply.A[i]); err != nil {
-					fail("step %d (%s) as log entry %d: %v", i+1, strings.Join(st, " "), q, err)
-					return
+					asEntry = false
 				}
 			}
-			wi++
-			p = q + 1
-			continue
+			if asEntry {
+				wi++
+				p = q + 1
+				continue
+			}
 		}
 		// a call that changes nothing (read, or a write without effect)
 		found := false
